@@ -124,7 +124,9 @@ func New(params *NewParams) (*Job, error) {
 
 	go func() {
 		for retained := range retainedCheckpointsUpdatedChan {
-			job.assembly.UpdateRetainedCheckpoints(ctx, retained)
+			if err := job.assembly.UpdateRetainedCheckpoints(ctx, retained); err != nil {
+				job.log.Error("failed to update retained checkpoints", "err", err)
+			}
 		}
 	}()
 
@@ -300,8 +302,7 @@ func (j *Job) start() error {
 	j.sourceSplitter = j.config.Sources[0].NewSourceSplitter(j.assembly.SourceRunnerIDs(), connectors.SourceSplitterHooks{
 		AssignSplits: func(assignments map[string][]*workerpb.SourceSplit) {
 			j.taskQueue <- func() error {
-				j.assembly.AssignSplits(assignments)
-				return nil
+				return j.assembly.AssignSplits(assignments)
 			}
 		},
 	}, j.errChan)
@@ -319,7 +320,9 @@ func (j *Job) start() error {
 	}
 
 	// Start the source splitter with a checkpoint if available and allow it to run background work.
-	j.sourceSplitter.Start(sourceCkpt)
+	if err := j.sourceSplitter.Start(sourceCkpt); err != nil {
+		return fmt.Errorf("starting source splitter: %v", err)
+	}
 
 	j.taskQueue <- func() error {
 		j.log.Info("running")
